@@ -6,7 +6,7 @@ IDS=${@:-$(ls seeded)}
 for id in $IDS; do
   P=$(python3 -c "import json;print(json.load(open('seeded/$id/meta.json'))['breaks_property'])")
   git -C /repo diff --quiet || { echo "/repo not clean"; exit 2; }
-  git -C /repo apply seeded/$id/patch.diff || { echo "$id PATCH DOES NOT APPLY"; continue; }
+  git -C /repo apply /verif/seeded/$id/patch.diff || { echo "$id PATCH DOES NOT APPLY"; continue; }
   ./check $P --no-evidence > /tmp/seedchk.$id.log 2>&1; rc=$?
   git -C /repo checkout -- .
   echo "$id -> $P exit=$rc $(grep -c '^VIOLATION' /tmp/seedchk.$id.log) violations; $(grep -m1 'finding-key' /tmp/seedchk.$id.log | cut -c1-150)"
